@@ -343,6 +343,8 @@ TASK_STATE_MACHINE_DATA = {
         events.ACTION_SUCCEEDED: statuses.SUCCEEDED,
     },
     statuses.PAUSING: {
+        events.WORKFLOW_RUNNING: statuses.RUNNING,
+        events.WORKFLOW_RESUMING: statuses.RUNNING,
         events.ACTION_PENDING_TASK_DORMANT_ITEMS_PAUSED: statuses.PAUSED,
         events.ACTION_PENDING_TASK_DORMANT_ITEMS_CANCELED: statuses.CANCELED,
         events.ACTION_PENDING_TASK_DORMANT_ITEMS_FAILED: statuses.FAILED,
